@@ -23,4 +23,5 @@ HOOK_COMMITS = [
     "verif hooks: count validation runs; sticky forced outcomes",
     "verif hooks: RTR listener/stream exposure, rendezvous points in RtrStream::new and metrics",
     "verif hooks: status/metrics renderers, PublishInfo re-export, injected RRDP outcome, LimitedDataRead exposure",
+    "verif hooks: Archive creation with chosen hash key, ValidationReport plain-data push/reject",
 ]
